@@ -60,6 +60,9 @@ def zargmax(xs):
 def build(c, p):
     from npstructures import RaggedArray, RunLengthRaggedArray, RunLength2dArray
     rows = c["rows"]
+    if p["variant"] == "intervals":
+        kw = {} if c.get("value") is None else {"value": pyint(c["value"])}
+        return RunLength2dArray.from_intervals(arr(c["starts"], "int64"), arr(c["ends"], "int64"), c["row_len"], **kw)
     if p["variant"] == "ragged":
         ra = RaggedArray(arr([x for r in rows for x in r], "int64"), arr([len(r) for r in rows], "int64"))
         return RunLengthRaggedArray.from_ragged_array(ra)
@@ -81,6 +84,24 @@ def dec(x):
     return x
 
 
+def _presel(c, p):
+    pre = p["pre"]
+    if pre == "list":
+        return list(c["pre_idx"])
+    if pre == "mask":
+        return arr(c["pre_mask"], "bool")
+    return {"from1": slice(1, None), "rev": slice(None, None, -1), "step2": slice(None, None, 2), "last2": slice(-2, None)}[pre]
+
+
+def _presel_rows(rows, c, p):
+    pre = p["pre"]
+    if pre == "list":
+        return [rows[i] for i in c["pre_idx"]]
+    if pre == "mask":
+        return [r for r, m in zip(rows, c["pre_mask"]) if m]
+    return rows[_presel(c, p)]
+
+
 def run(c, p):
     op = p["op"]
     if op == "intervals":
@@ -88,6 +109,8 @@ def run(c, p):
         r = RunLength2dArray.from_intervals(arr(c["starts"], "int64"), arr(c["ends"], "int64"), c["row_len"])
         return dec(r)
     rl = build(c, p)
+    if p.get("pre"):
+        rl = rl[_presel(c, p)]          # a pending row selection: the operation below is its first use
     if op == "roundtrip":
         return dec(rl), len(rl)
     if op == "shape":
@@ -152,7 +175,9 @@ def reference(c, p):
     """the dense rows through plain list operations; returns something obs_any understands (lists -> arrays via _obs)"""
     op = p["op"]
     rows = c.get("rows")
-    ragged = p["variant"] != "2d"
+    if p.get("pre"):
+        rows = _presel_rows(rows, c, p)
+    ragged = p["variant"] not in ("2d", "intervals")
 
     def R(rs):      # ragged / matrix observation
         if ragged:
@@ -257,6 +282,20 @@ def gen(E, p):
         return c
 
     def mkrows(tag, R=None):
+        if variant == "intervals":
+            k = E.concretize(E.int(tag + "k", p.get("Rfix", 1), p.get("Rfix", p["R"])))
+            n = c["row_len"] if tag else E.concretize(E.int("row_len", 1, p["L"] + 1))
+            starts = [E.concretize(E.int(f"{tag}s{i}", 0, n - 1)) for i in range(k)]
+            ends = [E.concretize(E.int(f"{tag}e{i}", 1, n)) for i in range(k)]
+            if any(s_ >= e_ for s_, e_ in zip(starts, ends)):
+                raise __import__("symx.engine", fromlist=["x"]).PathPruned()
+            val = E.int("value", -3, 3) if p.get("value") else None
+            if val is not None:
+                E.assume(val != 0)
+            if not tag:
+                c.update(row_len=n, starts=starts, ends=ends, value=val)
+            v = 1 if val is None else val
+            return [[v if s_ <= j < e_ else 0 for j in range(n)] for s_, e_ in zip(starts, ends)]
         R = E.concretize(E.int(tag + "R", p.get("Rfix", 1), p.get("Rfix", p["R"]))) if R is None else R
         if variant == "ragged":
             lens = [E.concretize(E.int(f"{tag}l{r}", p["l0"] if (r == 0 and p.get("l0") and not tag) else 1,
@@ -270,6 +309,16 @@ def gen(E, p):
                 E.branch(r[k] == r[k + 1])
         return rows
     rows = c["rows"] = mkrows("")
+    if p.get("pre"):
+        R0 = len(rows)
+        if p["pre"] == "list":
+            k = E.concretize(E.int("pk", 1, 2))
+            c["pre_idx"] = [E.concretize(E.int(f"pi{j}", -R0, R0 - 1)) for j in range(k)]
+        if p["pre"] == "mask":
+            c["pre_mask"] = [E.concretize(E.int(f"pm{i}", 0, 1)) == 1 for i in range(R0)]
+        rows = _presel_rows(rows, c, p)
+        if not rows:
+            raise __import__("symx.engine", fromlist=["x"]).PathPruned()
     R = len(rows)
     minlen = min(len(r) for r in rows)
     if op in ("rowint", "elem"):
@@ -372,6 +421,19 @@ def jobs(tier, seed):
     out.append(dict(base, variant="2d", op="colany"))
     out.append(dict(base, variant="2d", op="intervals"))
     out.append(dict(base, variant="ragged_from_matrix", op="roundtrip"))
+    # interval tables (runs that reach the right edge, several cells long; any run value) under the same operations
+    for op in ("roundtrip", "shape", "rowint", "rowsum", "rowany", "rowall", "colsum", "colany", "rowlist", "rowmask", "neg", "rs", "sr", "npsum"):
+        out.append(dict(base, variant="intervals", op=op, value=op in ("rowsum", "colsum", "roundtrip", "npsum", "rs"), L=3))
+    # the first use of a pending row selection is a reduction / a column aggregate
+    for pre in ("from1", "rev", "step2", "list", "mask"):
+        for variant in ("ragged", "2d", "intervals"):
+            for op in ("colsum", "rowsum", "colcounts", "rowmax", "ravel", "colany", "rowmean"):
+                if (variant != "ragged" and op in ("colcounts", "rowmax", "ravel", "rowmean")) or (variant == "ragged" and op == "colany"):
+                    continue
+                if q and pre in ("step2", "mask") and op not in ("colsum", "rowsum"):
+                    continue
+                small = variant == "intervals" and pre in ("list", "mask")
+                out.append(dict(base, variant=variant, op=op, pre=pre, R=2 if small else 3, L=2 if (q or small) else 3))
     return [dict(h="C17.rl2d", p=p) for p in out]
 
 
